@@ -1,6 +1,8 @@
 //! C18 — TMT reporter-ion quantification (`sage_core::tmt`, `spectrum::select_most_intense_peak`)
 //!
-//!   tmt <plex> ppmLo ppmHi level [n spectrum…]  ->  [n row…]            rows sorted as text
+//!   tmt <plex> ppmLo ppmHi level [n spectrum…]  ->  [n row…]            rows sorted as text; quantify runs in rayon
+//!       pools of 1, 2 and 16 threads: the pool-1 rows if all agree, else `threaddep <threads> <rows>`
+//!   tmtpool [k threads…] <plex> ppmLo ppmHi level [n spectrum…]  ->  k × [n row…]   one row set per pool size
 //!       plex     = t6 | t10 | t11 | t16 | t18 | u [n f32…]
 //!       spectrum = level id(hex) file_id inj(f32) [n (0 | 1 ref(hex))…] [n (mass(f32) intensity(f32))…]
 //!       row      = key(hex) file_id inj(f32) [n f32…]
@@ -26,7 +28,7 @@ use sage_core::spectrum::{
 };
 use sage_core::tmt::{quantify, Isobaric};
 
-pub const OPS: &[&str] = &["tmt", "selpeak", "tmtconsts", "tmtguard", "tmtproc", "tmtrun"];
+pub const OPS: &[&str] = &["tmt", "selpeak", "tmtconsts", "tmtguard", "tmtproc", "tmtrun", "tmtpool"];
 pub const INFO: Info = Info {
     rule: "tmt: plex in {6,10,11,16,18,user-defined (0-6 masses, sorted or not, some 6 mDa apart, some with \
            overlapping windows)} x quant level (mostly 2/3, also 0/1/4) x 0-6 spectra of mixed levels (ids, file ids, \
@@ -46,7 +48,12 @@ pub const INFO: Info = Info {
            24-44 ppm outside, neighbours one neutron/z (z 1-2) above/below reporters at 0.25-4x the intensity, peaks in \
            the 1.2 Th right above the heaviest channel, fragment isotope clusters (z 1-3) above the region; no peak \
            within 17-23 ppm of a channel (spec exact); quant/raw level (2,2) mostly, (3,3), mismatches; deisotope on 5/6; \
-           max_peaks >= number of peaks, except a 10% small-max_peaks stream (spec na). tmtrun (THE REAL Runner::batch_files over mzML files written \
+           max_peaks >= number of peaks, except a 10% small-max_peaks stream (spec na). tmtpool (quantify inside explicit rayon pools, mostly [1,2,3,4,16]): lists of 2-300 spectra (quick: 60 lists \
+           incl. 2 x 300, 128, 64 ...) of five shapes — full-reporter spectra then spectra with all channels empty, the \
+           reverse, alternating full / partial / empty, blocks full-partial-empty, random kinds — at the quant level, \
+           half of the lists interleaved with (full) other-level spectra; every spectrum has its own intensities so a \
+           value leaked from another spectrum of the same rayon job is visible; `tmt` itself runs in pools 1/2/16 and \
+           tmtrun in pools 1/3. tmtrun (THE REAL Runner::batch_files over mzML files written \
            to a temp dir): every built-in plex x 3 intensity patterns at MS2 with deisotoping; a directed file with MS3 \
            before its MS2, MS3 scans sharing / lacking / mis-referencing an MS2, a zero-m/z precursor, escaped ids, an MS2 \
            without reporter peaks, at level 2/3 x sn on/off, and as two files x batch 1/2; random: 1-2 files of 0-3 \
@@ -161,7 +168,27 @@ fn tmt_request(plex: &Plex, ppm: (f32, f32), level: u8, specs: &[Spec]) -> Strin
 
 // ------------------------------------------------------------------------------------------ exec
 
-fn exec_tmt(t: &mut Toks) -> Option<String> {
+/// explicit rayon pools (cached): whether two spectra are handled by the same rayon job depends on the pool size
+fn pool(threads: usize) -> std::sync::Arc<rayon::ThreadPool> {
+    use std::collections::HashMap;
+    use std::sync::{Arc, Mutex, OnceLock};
+    static POOLS: OnceLock<Mutex<HashMap<usize, Arc<rayon::ThreadPool>>>> = OnceLock::new();
+    let m = POOLS.get_or_init(|| Mutex::new(HashMap::new()));
+    let mut g = m.lock().unwrap_or_else(|e| e.into_inner());
+    g.entry(threads)
+        .or_insert_with(|| Arc::new(rayon::ThreadPoolBuilder::new().num_threads(threads.max(1)).build().expect("pool")))
+        .clone()
+}
+
+struct TmtReq {
+    plex: Plex,
+    lo: f32,
+    hi: f32,
+    level: u8,
+    spectra: Vec<ProcessedSpectrum<Peak>>,
+}
+
+fn read_tmt_req(t: &mut Toks) -> Option<TmtReq> {
     let plex = Plex::read(t)?;
     let lo = t.f32()?;
     let hi = t.f32()?;
@@ -190,8 +217,38 @@ fn exec_tmt(t: &mut Toks) -> Option<String> {
             total_ion_current: 0.0,
         })
         .collect();
-    let rows = quantify(&spectra, &plex.real(), Tolerance::Ppm(lo, hi), level as u8);
-    Some(render_rows(&rows))
+    Some(TmtReq { plex, lo, hi, level: level as u8, spectra })
+}
+
+fn quantify_in(threads: usize, r: &TmtReq) -> String {
+    let iso = r.plex.real();
+    let rows = pool(threads).install(|| quantify(&r.spectra, &iso, Tolerance::Ppm(r.lo, r.hi), r.level));
+    render_rows(&rows)
+}
+
+/// `tmt`: `quantify` in pools of 1, 2 and 16 threads; the pool-1 rows when all agree,
+/// `threaddep <threads> <rows>` (first differing set) otherwise
+fn exec_tmt(t: &mut Toks) -> Option<String> {
+    let r = read_tmt_req(t)?;
+    let base = quantify_in(1, &r);
+    for threads in [2usize, 16] {
+        let other = quantify_in(threads, &r);
+        if other != base {
+            return Some(format!("threaddep {threads} {other}"));
+        }
+    }
+    Some(base)
+}
+
+/// `tmtpool [k threads…] <tmt arguments>`: one row set per listed pool size
+fn exec_pool(t: &mut Toks) -> Option<String> {
+    let pools = t.list(|t| t.usize())?;
+    if pools.is_empty() || pools.len() > 8 || pools.iter().any(|&p| p == 0 || p > 64) {
+        return None;
+    }
+    let r = read_tmt_req(t)?;
+    let sets: Vec<String> = pools.iter().map(|&p| quantify_in(p, &r)).collect();
+    Some(sets.join(" "))
 }
 
 fn render_rows(rows: &[sage_core::tmt::TmtQuant]) -> String {
@@ -609,8 +666,13 @@ fn exec_run(t: &mut Toks) -> Option<String> {
         annotate_matches: p.annotate_matches,
         score_type: p.score_type,
     };
-    let res = runner.batch_files(&sc, batch);
-    Some(render_rows(&res.quant))
+    // the whole runner path inside explicit rayon pools of 1 and 3 threads
+    let base = render_rows(&pool(1).install(|| runner.batch_files(&sc, batch)).quant);
+    let other = render_rows(&pool(3).install(|| runner.batch_files(&sc, batch)).quant);
+    if other != base {
+        return Some(format!("threaddep 3 {other}"));
+    }
+    Some(base)
 }
 
 /// `tmtproc`: raw spectrum -> (runner's min_deisotope_mz) -> SpectrumProcessor::process -> tmt::quantify
@@ -657,6 +719,7 @@ fn exec_proc(t: &mut Toks) -> Option<String> {
 pub fn exec(op: &str, t: &mut Toks) -> Option<String> {
     match op {
         "tmtproc" => exec_proc(t),
+        "tmtpool" => exec_pool(t),
         "tmtrun" => exec_run(t),
         "tmt" => exec_tmt(t),
         "selpeak" => exec_selpeak(t),
@@ -1305,10 +1368,136 @@ fn gen_run(rng: &mut Rng, quick: bool, emit: &mut dyn FnMut(Case)) {
     }
 }
 
+// ------------------------------------------------------------------------------------------ tmtpool gen
+
+fn pool_request(pools: &[usize], plex: &Plex, level: u8, specs: &[Spec]) -> String {
+    let mut o = Out::new();
+    o.raw("tmtpool").n(pools.len());
+    for &p in pools {
+        o.n(p);
+    }
+    let rest = tmt_request(plex, (-20.0, 20.0), level, specs);
+    o.raw(rest.strip_prefix("tmt ").unwrap_or(&rest));
+    o.finish()
+}
+
+/// state leaking between spectra handled by the same rayon job: long lists in which spectra with a peak on every
+/// channel are followed by spectra with some / all channels empty (and the reverse), at the quant level and
+/// interleaved with other-level spectra; every spectrum has its own intensities, so a leaked value is visible
+fn gen_pool(rng: &mut Rng, quick: bool, emit: &mut dyn FnMut(Case)) {
+    let sizes: Vec<usize> = if quick {
+        let mut v = vec![2, 2, 3, 3, 4, 5, 8, 8, 8, 9, 12, 16, 16, 24, 32, 32, 48, 64, 64, 128, 300, 300];
+        for _ in 0..38 {
+            v.push(2 + rng.below(30));
+        }
+        v
+    } else {
+        let mut v = Vec::new();
+        for _ in 0..1500 {
+            v.push(match rng.below(10) {
+                0 => 100 + rng.below(201),
+                1 | 2 => 33 + rng.below(96),
+                _ => 2 + rng.below(31),
+            });
+        }
+        v.extend([256, 300, 300, 300]);
+        v
+    };
+    for (ci, &n) in sizes.iter().enumerate() {
+        let plex = if rng.chance(1, 5) {
+            rand_user_proc(rng)
+        } else {
+            match rng.below(6) {
+                0 => Plex::T6,
+                1 => Plex::T10,
+                2 => Plex::T11,
+                3 => Plex::T16,
+                _ => Plex::T18,
+            }
+        };
+        let labels = builtin(&plex);
+        let level: u8 = if rng.chance(3, 5) { 2 } else { 3 };
+        let shape = ci % 5; // 0 full→empty, 1 empty→full, 2 alternating, 3 full→partial→empty blocks, 4 random
+        let with_other = rng.chance(1, 2);
+        let mut specs: Vec<Spec> = Vec::with_capacity(n);
+        let (mut n_full, mut n_hole) = (0usize, 0usize);
+        for i in 0..n {
+            let other_level = with_other && rng.chance(1, 3);
+            // 0 = full, 1 = partial, 2 = empty (only peaks outside every window), 3 = no peaks at all
+            let kind = if other_level {
+                0
+            } else {
+                match shape {
+                    0 => if i < n / 2 { 0 } else { 2 + (i % 2) },
+                    1 => if i < n / 2 { 2 + (i % 2) } else { 0 },
+                    2 => if i % 2 == 0 { 0 } else { 1 + (i / 2) % 3 },
+                    3 => match (3 * i) / n.max(1) {
+                        0 => 0,
+                        1 => 1,
+                        _ => 2,
+                    },
+                    _ => rng.below(4),
+                }
+            };
+            let base_int = (10 * (i + 1)) as f32;
+            let mut peaks: Vec<(f32, f32)> = Vec::new();
+            for (c, &l) in labels.iter().enumerate() {
+                let present = match kind {
+                    0 => true,
+                    1 => rng.chance(1, 2),
+                    _ => false,
+                };
+                if present && l.is_finite() && l > 2.0 {
+                    peaks.push((l - PROTON, base_int + c as f32 * 0.5 + 0.25));
+                }
+            }
+            if kind != 3 {
+                peaks.push((90.5 - PROTON, 7.0));
+                peaks.push((755.5 - PROTON, base_int));
+            }
+            peaks.sort_by(|a, b| a.0.total_cmp(&b.0));
+            let lvl = if other_level { if level == 2 { 3 } else { 2 } } else { level };
+            if !other_level {
+                if kind == 0 {
+                    n_full += 1;
+                } else {
+                    n_hole += 1;
+                }
+            }
+            specs.push(Spec {
+                level: lvl,
+                id: format!("s{i}"),
+                file_id: i % 3,
+                inj: (i as f32) * 0.5 + 1.0,
+                precursors: vec![Some(format!("p{i}"))],
+                peaks,
+            });
+        }
+        let pools: Vec<usize> = match rng.below(6) {
+            0 => vec![1],
+            1 => vec![2, 1],
+            _ => vec![1, 2, 3, 4, 16],
+        };
+        emit(Case::new(pool_request(&pools, &plex, level, &specs))
+            .tag(match shape {
+                0 => "pool:full-then-empty",
+                1 => "pool:empty-then-full",
+                2 => "pool:alternating",
+                3 => "pool:full-partial-empty-blocks",
+                _ => "pool:random-kinds",
+            })
+            .tag_if(with_other, "pool:other-level-interleaved")
+            .tag_if(n >= 8, "pool:n>=8")
+            .tag_if(n >= 100, "pool:n>=100")
+            .nontrivial(n_full >= 1 && n_hole >= 1));
+    }
+}
+
 pub fn gen(rng: &mut Rng, tier: Tier, emit: &mut dyn FnMut(Case)) {
     let quick = tier == Tier::Quick;
     gen_proc(rng, quick, emit);
     gen_run(rng, quick, emit);
+    gen_pool(rng, quick, emit);
     emit(Case::new("tmtconsts".to_string()).tag("consts"));
 
     // ---------------------------------------------------------------- tmtguard
